@@ -104,6 +104,36 @@ pub fn gen_limits(w: &mut Rng, kind: LimitKind) -> Option<([f64; 6], [f64; 6])> 
     }
 }
 
+/// The same table with the same keys and other values: exemptions lifted (NEVER_COLLIDES -> a real
+/// distance), pairs exempted, distances scaled. What a cache of "the pairs to check" that is
+/// revalidated by shape (entry count, body count) cannot see.
+pub fn retune_safety(w: &mut Rng, t: &SafetySpec) -> SafetySpec {
+    let mut t2 = t.clone();
+    let mut changed = false;
+    for e in t2.special.iter_mut() {
+        if e.2 <= NEVER {
+            if w.chance(0.7) {
+                e.2 = *w.pick(&[0.0f32, 0.005, 0.02, 0.06]);
+                changed = true;
+            }
+        } else if w.chance(0.3) {
+            e.2 = NEVER;
+            changed = true;
+        } else if w.chance(0.5) {
+            e.2 = if e.2 == 0.0 { 0.03 } else { e.2 * *w.pick(&[0.25f32, 0.5, 2.0, 4.0]) };
+            changed = true;
+        }
+    }
+    if !changed || w.chance(0.3) {
+        if t2.to_env > NEVER {
+            t2.to_env = if t2.to_env == 0.0 { 0.02 } else { t2.to_env * *w.pick(&[0.25f32, 3.0]) };
+        } else {
+            t2.to_env = 0.01;
+        }
+    }
+    t2
+}
+
 pub fn gen_safety(w: &mut Rng, has_tool: bool, has_base: bool, n_env: usize, touch_only: bool, sparse: bool) -> SafetySpec {
     let mode = match w.below(10) {
         0 => Mode::NoCheck,
